@@ -223,6 +223,7 @@ class Evaluator:
         self._bind_memo_for, self._bind_memo = None, {}
         self.assumptions = {}  # boolean term -> bool: mode facts fixed by the obligation (E4)
         self.bind = {}  # term -> concrete representative of its region (E4)
+        self._cur_cls = None  # (module, class) of the method under evaluation
         self.objects = {}  # term -> {attribute: value}: objects whose attributes the scenario under analysis fixes (vars() / getattr())
         self.assume_fn = None  # optional callable(condition term) -> True / False / None: scripted outcome of environment predicates
 
@@ -319,12 +320,16 @@ class Evaluator:
         if a.kwarg:
             fr.env[a.kwarg.arg] = args.get(a.kwarg.arg, tm.param("**" + a.kwarg.arg, tm.DICT))
         self._stack.append(fi.qualname)
+        prev_cls = self._cur_cls
+        if fi.cls:
+            self._cur_cls = (fi.module.name, fi.cls)
         try:
             done = self.block(fi.node.body, fr)
             if not done:
                 summary.exits.append(Exit(fr.guard, "return", None, fi.node, fi.qualname, facts=fr.facts))
         finally:
             self._stack.pop()
+            self._cur_cls = prev_cls
         summary.env = fr.env
         return summary
 
@@ -555,6 +560,9 @@ class Evaluator:
                 fr.summary.calls.append(("method:" + meth, [recv] + args, kw, e, tuple(fr.guard), tuple(fr.facts), dict(fr.iters)))
                 if meth == "append" and isinstance(recv, list):
                     recv.append(args[0])
+                    return
+                if meth == "insert" and isinstance(recv, list) and len(args) == 2 and isinstance(args[0], int) and not isinstance(args[0], bool):
+                    recv.insert(args[0], args[1])
                     return
                 if meth == "extend" and isinstance(recv, list) and isinstance(args[0], list):
                     recv.extend(args[0])
@@ -1019,6 +1027,15 @@ class Evaluator:
             return T("ext", (base.args[0] + "." + attr,))
         if isinstance(base, T) and base.op == "ext":
             return T("ext", (base.args[0] + "." + attr,))
+        if isinstance(base, T) and base.op == "param" and base.args[0] in ("self", "cls") and self._cur_cls is not None:
+            modname, cls = self._cur_cls
+            cn = self.prog.modules[modname].classnodes.get(cls) if modname in self.prog.modules else None
+            if cn is not None:
+                for st in cn.body:  # a class-level constant read through the instance
+                    if isinstance(st, ast.Assign) and any(isinstance(t, ast.Name) and t.id == attr for t in st.targets):
+                        return self.expr(st.value, Frame(self, modname, None, Summary(None), 0))
+                    if isinstance(st, ast.AnnAssign) and isinstance(st.target, ast.Name) and st.target.id == attr and st.value is not None:
+                        return self.expr(st.value, Frame(self, modname, None, Summary(None), 0))
         if self.objects and isinstance(base, T):
             for k, d in self.objects.items():
                 if tm.veq(k, base):  # an object whose attribute dictionary the scenario under analysis fixes
@@ -1380,6 +1397,8 @@ class Evaluator:
             return self.call_fn(self.prog.function(fv.args[0]), pos, kw, e, fr)
         if isinstance(fv, T) and fv.op == "ext":
             return self.extern(fv.args[0], pos, kw, e, fr)
+        if isinstance(fv, T) and fv.op == "ext" and isinstance(fv.args[0], str):
+            return self.extern(fv.args[0], pos, kw, e, fr)  # a library function held in a variable or a table
         if isinstance(fv, T) and fv.op == "ite":
             return tm.ite(fv.args[0], self.call_value(_unfz(fv.args[1]), pos, kw, e, fr),
                           self.call_value(_unfz(fv.args[2]), pos, kw, e, fr))
@@ -1767,6 +1786,9 @@ class Evaluator:
             for k, d in self.objects.items():
                 if tm.veq(k, a0):
                     return dict(d)
+        if n == "setattr" and len(pos) == 3 and isinstance(pos[1], str) and isinstance(a0, T) and a0.op == "param":
+            fr.env[a0.args[0] + "." + pos[1]] = pos[2]  # setattr(self, "name", v) is self.name = v
+            return None
         if n == "getattr":
             if isinstance(pos[1], str):
                 v = self.getattr_value(a0, pos[1])
